@@ -175,6 +175,10 @@ func (c *ctx) expr(t byte, atoms map[byte][]string, depth int) string {
 		}
 	case 8:
 		return "CASE " + sub(t) + " WHEN " + sub(t) + " THEN " + sub(t) + " WHEN " + sub(t) + " THEN " + sub(t) + " END"
+	case 9:
+		if t == 'N' || t == 'F' {
+			return "(" + c.g.Pick("+", "-", "+") + sub(t) + ")"
+		}
 	}
 	return c.atom(t, atoms)
 }
@@ -619,6 +623,7 @@ var corpus = []string{
 	"SELECT id, s2, s FROM t ORDER BY s2, s, id",
 	"SELECT id, RANK() OVER (PARTITION BY s ORDER BY s2), LISTAGG(s2, ',') OVER (PARTITION BY s) FROM t ORDER BY id",
 	"SELECT DISTINCT s, s2 FROM t ORDER BY s DESC, s2",
+	"SELECT id, n, +n, -n, +f, -f, +s2, +(n * 2), -(-n) FROM t ORDER BY id",
 	"SELECT a.id, b.name FROM t a, t2 b WHERE a.grp = b.grp AND a.id < 40 ORDER BY a.id, b.name",
 	"SELECT a.id, b.name, a.s || b.name FROM t2 b, t a WHERE a.grp = b.grp AND a.id < 20 ORDER BY a.id, b.name",
 	"SELECT id, YEAR(dv), ADD_DAY(dv, 1), DATE_DIFF(dv, @dvar), DATETIME_FORMAT(dv, '%Y-%m-%d'), dv FROM dtt ORDER BY id",
@@ -1025,7 +1030,7 @@ func runChild(seed int64, n int, dir string, withCorpus bool) {
 	}
 	for it := 0; it < n; it++ {
 		c.seq++
-		kind := []string{"plain", "plain", "while", "udf", "prepared", "reread_table", "reread_cursor", "reread_variable", "dtcell", "fromlist", "dml_alias", "uda_pool", "extra_column", "cte_twice", "dispose_shared"}[it%15]
+		kind := []string{"plain", "plain", "while", "udf", "prepared", "reread_table", "reread_cursor", "reread_variable", "dtcell", "fromlist", "dml_alias", "uda_pool", "extra_column", "cte_twice", "dispose_shared", "unary", "multi_dml"}[it%17]
 		o.Count("kind:" + kind)
 		switch kind {
 		case "plain":
@@ -1225,6 +1230,69 @@ func runChild(seed int64, n int, dir string, withCorpus bool) {
 			c.scanView("SELECT * FROM t", "re-read table cell")
 			rereadDt("after " + prog)
 			c.nt(fmt.Sprintf("dispose_shared/%v/%d", e1 != nil, len(r1)%7))
+		case "unary":
+			// unary plus / minus over every numeric class, kept in a column / a variable while further values of the
+			// same type are made: +x is x, -x is x * -1, and what was computed does not change afterwards
+			ops := []string{"n", "f", "id", "s2", "'12'", "' 3.5 '", "(n * 2)", "(f / 3)", "grp"}
+			a, b := ops[c.g.Intn(len(ops))], ops[c.g.Intn(len(ops))]
+			got, ok1 := c.rowsOf(fmt.Sprintf("SELECT +%s, -%s, +%s, -%s, %s, %s FROM t ORDER BY id", a, a, b, b, a, b))
+			want, ok2 := c.rowsOf(fmt.Sprintf("SELECT %s * 1, %s * -1, %s * 1, %s * -1, %s, %s FROM t ORDER BY id", a, a, b, b, a, b))
+			if ok1 && ok2 {
+				for i := range got {
+					if i < len(want) && got[i] != want[i] {
+						o.Law("unary_identity", map[string]string{"operands": a + ", " + b, "row": fmt.Sprintf("%d", i+1), "unary": got[i], "by_multiplication": want[i]})
+						break
+					}
+				}
+			}
+			c.scanView(fmt.Sprintf("SELECT +%s, -%s, +%s FROM t", a, a, b), "result cell")
+			vn := fmt.Sprintf("@un%d", c.seq)
+			lit := c.g.Pick("1", "7", "2.5", "'12'", "0")
+			prog := fmt.Sprintf("VAR %s := +%s; VAR %sm := -%s; VAR %sb := 5 + 5; VAR %sc := 1.25 + 1.25; PRINT %s; PRINT %sm;", vn, lit, vn, lit, vn, vn, vn, vn)
+			r1, e1 := c.execChecked(prog, "reread_variable")
+			exp, e0 := c.execChecked(fmt.Sprintf("PRINT %s * 1; PRINT %s * -1;", lit, lit), "reread_variable")
+			if e1 == nil && e0 == nil && r1 != exp {
+				o.Law("unary_identity", map[string]string{"program": prog, "printed": r1, "expected": exp})
+			}
+			_, _ = c.execChecked(c.noise(), kind)
+			r2, e2 := c.execChecked(fmt.Sprintf("PRINT %s; PRINT %sm;", vn, vn), "reread_variable")
+			if canon(r1, e1) != canon(r2, e2) {
+				o.Law("reread:variable", map[string]string{"program": prog, "first": canon(r1, e1), "second": canon(r2, e2)})
+			}
+			c.nt(fmt.Sprintf("unary/%s/%s", a, lit))
+		case "multi_dml":
+			// UPDATE … FROM / DELETE … FROM over a one-to-many join (one target record matches several joined
+			// records), then a statement whose effect identifies the records it touched
+			first := c.g.Pick(
+				"UPDATE u SET u.s = 'X' || b.name FROM u JOIN t2 b ON u.grp = b.grp;",
+				"UPDATE u SET u.n = u.n + 1 FROM u JOIN t2 b ON u.grp = b.grp JOIN t2 c ON c.grp = b.grp WHERE u.id < 50;",
+				"DELETE u FROM u JOIN t2 b ON u.grp = b.grp WHERE u.id % 9 = 0;",
+				"DELETE u FROM u, t2 b WHERE u.grp = b.grp AND u.id > 60;",
+			)
+			_, e1 := c.execChecked(first, kind)
+			k := 1 + c.g.Intn(55)
+			if k%9 == 0 {
+				k++
+			}
+			mark := fmt.Sprintf("UPDATE u SET s = 'MARK%d' WHERE id = %d;", c.seq, k)
+			_, e2 := c.execChecked(mark, kind)
+			got, ok := c.rowsOf(fmt.Sprintf("SELECT id FROM u WHERE s = 'MARK%d'", c.seq))
+			if e1 == nil && e2 == nil && ok && !(len(got) == 1 && strings.Trim(got[0], "'") == fmt.Sprintf("%d", k)) {
+				o.Law("dml_targets", map[string]string{"first": first, "then": mark, "records_marked": strings.Join(got, ","), "expected": fmt.Sprintf("%d", k)})
+			}
+			del := fmt.Sprintf("DELETE FROM u WHERE id = %d;", k+1)
+			_, e3 := c.execChecked(del, kind)
+			left, ok2 := c.rowsOf(fmt.Sprintf("SELECT COUNT(*) FROM u WHERE id = %d", k+1))
+			still, ok3 := c.rowsOf(fmt.Sprintf("SELECT COUNT(*) FROM u WHERE id = %d", k))
+			if e3 == nil && ok2 && ok3 && (left[0] != "0" || still[0] != "1") {
+				o.Law("dml_targets", map[string]string{"first": first, "then": del, "rows_with_deleted_id": left[0], "rows_with_marked_id": still[0]})
+			}
+			_, _ = pr.Exec("ROLLBACK;")
+			again, e := c.execChecked("SELECT * FROM u ORDER BY id;", "reread_table")
+			if e != nil || again != uBaseline {
+				o.Law("rollback_restores", map[string]string{"statement": first + " " + mark + " " + del, "after_rollback": canon(again, e)})
+			}
+			c.nt(fmt.Sprintf("multi_dml/%s/%v", strings.SplitN(first, " ", 2)[0], e1 != nil))
 		case "dtcell":
 			// functions applied to datetime-typed cells and variables, twice; then the cells are read again
 			k := 1 + c.g.Intn(3)
